@@ -52,6 +52,13 @@ def _pred(n_out=1):
     return chi.PredictiveModel(ToyModel(2, n_out), ems)
 
 
+def _red_tg():
+    m = chi.ReducedPopulationModel(chi.ComposedPopulationModel([
+        chi.TruncatedGaussianModel(n_dim=2)]))
+    m.fix_parameters({m.get_parameter_names()[3]: 0.5})
+    return m
+
+
 def _filter_posterior():
     y = np.array([[[1.0, 2.0]], [[1.5, 2.5]]])
     f = chi.GaussianFilter(y)
@@ -89,6 +96,29 @@ def entry_points():
         [1.0, 0.5, 0.3], TIMES, n_samples=2, seed=seed, return_df=False)
     eps['pred2'] = lambda seed: _pred(2).sample(
         [1.0, 0.5, 0.3, 0.2], TIMES, n_samples=2, seed=seed, return_df=False)
+
+    # replicate measurements: requested times with repeated values
+    rep = [1.1, 0.4, 1.1, 2.0, 0.4]
+    eps['pred1rep'] = lambda seed: _pred(1).sample(
+        [1.0, 0.5, 0.3], rep, n_samples=2, seed=seed, return_df=False)
+    eps['pred2rep'] = lambda seed: _pred(2).sample(
+        [1.0, 0.5, 0.3, 0.2], rep, n_samples=2, seed=seed, return_df=False)
+
+    def poppred_rep(seed):
+        spec = rp.Comp([rp.LN(1), rp.P(1), rp.G(1, False)])
+        pm = chi.PopulationPredictiveModel(_pred(1), popbuild.build(spec, None))
+        return pm.sample(popvals.top_values(spec, 1, 0, positive=True), rep,
+                         n_samples=2, seed=seed, return_df=False)
+    eps['poppred_rep'] = poppred_rep
+    # several dimensions with identical parameters: the dimensions are separate
+    # draws all the same
+    for k, cls in (('G', 'GaussianModel'), ('LN', 'LogNormalModel'),
+                   ('TG', 'TruncatedGaussianModel')):
+        eps['pop:%s3same' % k] = (
+            lambda seed, cls=cls: getattr(chi, cls)(n_dim=3).sample(
+                [0.8, 0.8, 0.8, 0.5, 0.5, 0.5], n_samples=3, seed=seed))
+    eps['pop:redTG2'] = lambda seed: _red_tg().sample(
+        [0.8, 0.8, 0.5], n_samples=3, seed=seed)
 
     def poppred(seed):
         spec = rp.Comp([rp.LN(1), rp.P(1), rp.G(1, False)])
@@ -144,7 +174,13 @@ def entry_points():
 
 
 DETERMINISTIC = {'pop:P'}
-GENERATOR_OK = {'err:G', 'err:M', 'err:CM', 'err:LN', 'pop:G', 'pop:LNnc', 'pop:TG',
+# entry points all of whose output cells are separate continuous draws
+DISTINCT_CELLS = {'err:G', 'err:M', 'err:CM', 'err:LN', 'pop:G', 'pop:LNnc',
+                  'pop:TG', 'pop:G3same', 'pop:LN3same', 'pop:TG3same',
+                  'pop:redTG2', 'pred1', 'pred2', 'pred1rep', 'pred2rep',
+                  'poppred', 'poppred_rep'}
+GENERATOR_OK = {'pop:G3same', 'pop:LN3same', 'pop:TG3same', 'pop:redTG2',
+                'pred1rep', 'pred2rep', 'poppred_rep', 'err:G', 'err:M', 'err:CM', 'err:LN', 'pop:G', 'pop:LNnc', 'pop:TG',
                 'pop:H', 'pop:comp', 'pop:cov', 'pop:compcov', 'pred1', 'pred2', 'poppred',
                 'postpred', 'pam', 'priorpred'}
 
@@ -197,6 +233,17 @@ def w_seeds(case):
         viol.append({'sub': 'seeds', 'message': 'seeds 1 and 2 give identical '
                      'draws (%s)' % e, 'expected': 'different', 'observed': r1,
                      'behaviour': 'seed_ignored:' + e})
+    if e in DISTINCT_CELLS:
+        for sd_, r in ((0, r0), (1, r1), (2, r2)):
+            flat = np.sort(r.flatten())
+            if len(flat) > 1 and np.any(np.diff(flat) == 0):
+                viol.append({'sub': 'copied_cells', 'message': 'two output cells of '
+                             'one call hold the identical draw: noise of different '
+                             'outputs / times / dimensions / samples is not '
+                             'independent (%s, seed %d)' % (e, sd_),
+                             'expected': 'pairwise different draws', 'observed': r,
+                             'behaviour': 'copied_cells:' + e})
+                break
     if case.get('generator'):
         try:
             g = np.random.default_rng(5)
@@ -240,7 +287,7 @@ def w_streams(case):
             variates.append((s_, i_, k_))
     shared = {}
     ntr = 1
-    pop_draws = e == 'poppred'
+    pop_draws = e.startswith('poppred')
     for (st, ix, kind) in variates:
         if kind == 'i':
             continue
@@ -269,7 +316,87 @@ def w_streams(case):
             'violations': viol}
 
 
-WORKERS = {'histories': w_history, 'seeds': w_seeds, 'streams': w_streams}
+class _X0Seam(object):
+    """Records the starting points chi hands to pints and replaces the pints run
+    methods by stubs (the optimisation / sampling itself is not C16's subject)."""
+    def __enter__(self):
+        seam = self
+        self.x0 = []
+        self._mi, self._oi = pints.MCMCController.__init__, \
+            pints.OptimisationController.__init__
+        self._mr, self._or = pints.MCMCController.run, \
+            pints.OptimisationController.run
+
+        def mi(ctrl, log_pdf, chains, x0, *a, **k):
+            seam.x0.append(np.array(x0, dtype=float))
+            seam._n = (chains, len(x0[0]))
+            return seam._mi(ctrl, log_pdf, chains, x0, *a, **k)
+
+        def oi(ctrl, function, x0, *a, **k):
+            seam.x0.append(np.array(x0, dtype=float))
+            return seam._oi(ctrl, function, x0, *a, **k)
+        pints.MCMCController.__init__ = mi
+        pints.OptimisationController.__init__ = oi
+        pints.MCMCController.run = lambda ctrl: np.zeros(
+            (seam._n[0], 1, seam._n[1]))
+        pints.OptimisationController.run = lambda ctrl: (
+            np.array(seam.x0[-1], dtype=float), 0.0)
+        return self
+
+    def __exit__(self, *exc):
+        pints.MCMCController.__init__ = self._mi
+        pints.OptimisationController.__init__ = self._oi
+        pints.MCMCController.run = self._mr
+        pints.OptimisationController.run = self._or
+        return False
+
+
+def w_n_runs(case):
+    """Seeded inference controllers: the starting points depend on the seed and the
+    final number of runs only, whatever set_n_runs calls came before."""
+    if case['post'] == 'individual':
+        ll = chi.LogLikelihood(ToyModel(2, 1), chi.GaussianErrorModel(),
+                               [1.0, 2.0], [0.5, 1.0])
+        post = chi.LogPosterior(ll, pints.ComposedLogPrior(*[
+            pints.UniformLogPrior(0.1, 2) for _ in range(3)]))
+    else:
+        spec = rp.Comp([rp.G(1), rp.LN(1, False), rp.P(1)])
+        post = chi.HierarchicalLogPosterior(
+            hier.build(hier.make_case(spec, 2, 0)), pints.ComposedLogPrior(*[
+                pints.UniformLogPrior(0.2, 2) for _ in range(5)]))
+    cls = chi.SamplingController if case['ctrl'] == 'sampling' else \
+        chi.OptimisationController
+    np.random.seed(4321)
+    c = cls(post, seed=case['seed'])
+    c.set_parallel_evaluation(False)
+    for n in case['history']:
+        c.set_n_runs(n)
+        if case.get('draw_between'):
+            np.random.random()
+    n = case['history'][-1]
+    with _X0Seam() as seam:
+        if case['ctrl'] == 'sampling':
+            c.run(n_iterations=1)
+        else:
+            c.run(n_max_iterations=1)
+    got = np.vstack([np.atleast_2d(x) for x in seam.x0])
+    exp = np.asarray(post.sample_initial_parameters(
+        n_samples=n, seed=case['seed']), dtype=float)
+    viol = []
+    if got.shape != exp.shape or not np.array_equal(got, exp):
+        viol.append({'sub': 'n_runs', 'message': 'starting points of a seeded %s '
+                     'controller after set_n_runs history %s are not the %d initial '
+                     'points the seed determines' % (case['ctrl'], case['history'],
+                                                     n),
+                     'expected': exp, 'observed': got,
+                     'behaviour': 'n_runs_history'})
+    return {'transitions': len(case['history']) + 2,
+            'outcome': key_of([case['ctrl'], case['post'], n, tol.rnd(got)]),
+            'violations': viol}
+
+
+WORKERS = {'histories': w_history, 'seeds': w_seeds, 'streams': w_streams,
+           'n_runs': w_n_runs}
 
 
 def build(tier, seed):
@@ -298,8 +425,22 @@ def build(tier, seed):
     streams = [{'entry': e, 'seed': sd} for e in names
                if e.startswith(('err:', 'pop:', 'pred', 'poppred'))
                for sd in (7, 0)]
+    runs = []
+    alphabet = (1, 2, 3, 5)
+    for ctrl in ('sampling', 'optimisation'):
+        for post in ('individual', 'hierarchical'):
+            for d in (1, 2, 3):
+                for h in itertools.product(alphabet, repeat=d):
+                    if tier == 'quick' and d == 3 and h[-1] != 3:
+                        continue
+                    runs.append({'ctrl': ctrl, 'post': post, 'history': list(h),
+                                 'seed': 1 + (len(runs) % 2),
+                                 'draw_between': len(runs) % 3 == 0})
     return {
         'parts': [
+            Part('n_runs', runs, w_n_runs,
+                 'seeded inference controllers: every set_n_runs history of length '
+                 '<= 3 over {1, 2, 3, 5}, starting points handed to pints'),
             Part('histories', hist, w_history,
                  'call(e, seed) after every history of length <= %d over global '
                  'seeding, global draws and calls of all entry points' % depth),
